@@ -177,7 +177,19 @@ func (h *Handler) Handle(ctx context.Context, record slog.Record) error {
 	}
 
 	if h.addCaller && record.PC != 0 {
-		frame, _ := runtime.CallersFrames([]uintptr{record.PC}).Next()
+		pc := record.PC
+		if h.callerSkip > 0 {
+			// record.PC is the call site slog recorded. Honor WithCallerSkip
+			// by walking further out from it, the same way (and under the
+			// same assumption about slog's frames) as the stack trace below:
+			// 0 runtime.Callers, 1 Handle, 2 slog.(*Logger).log,
+			// 3 slog.(*Logger).<level>, 4 the call site.
+			var pcs [1]uintptr
+			if runtime.Callers(4+h.callerSkip, pcs[:]) == 1 {
+				pc = pcs[0]
+			}
+		}
+		frame, _ := runtime.CallersFrames([]uintptr{pc}).Next()
 		if frame.PC != 0 {
 			ce.Caller = zapcore.EntryCaller{
 				Defined:  true,
